@@ -39,6 +39,8 @@ func (n *pnode) String() string {
 		fmt.Fprintf(&b, "[f%d]", n.fn)
 	case "compactfunc", "runssep", "runsflat":
 		fmt.Fprintf(&b, "[/%d]", n.n)
+	case "runshead":
+		fmt.Fprintf(&b, "[/%d take %d]", n.n, n.m)
 	case "mapstream":
 		fmt.Fprintf(&b, "[par=%d buf=%d f%d]", n.n, n.m, n.fn)
 	case "batch":
@@ -221,6 +223,10 @@ func (g *pgen) node(depth int) *pnode {
 	case 9:
 		return &pnode{op: "runssep", n: 1 + r.Choose(3, "coarse"), kids: []*pnode{g.node(depth - 1)}}
 	case 10:
+		if r.Choose(2, "runs-variant") == 1 {
+			// only the first m items of every run are read before the outer stream is advanced
+			return &pnode{op: "runshead", n: 1 + r.Choose(3, "coarse"), m: r.Choose(3, "take"), kids: []*pnode{g.node(depth - 1)}}
+		}
 		return &pnode{op: "runsflat", n: 1 + r.Choose(3, "coarse"), kids: []*pnode{g.node(depth - 1)}}
 	case 11:
 		return &pnode{op: "flatmap", n: r.Choose(4, "fanout"), kids: []*pnode{g.node(depth - 1)}}
@@ -542,6 +548,81 @@ func mBuild(n *pnode, e *mEnv, errAt map[int]int, errs map[int]error, endAt map[
 			}
 			inRun = false
 			return sepRun, nil
+		})
+	case "runshead":
+		// the first m items of every run, then a separator; the rest of the run is skipped when the
+		// outer sequence is advanced
+		in := kid(0)
+		has := false
+		held := 0
+		state := 0 // 0: between runs, 1: inside a run (taking), 2: marker pending after the take
+		first := 0
+		taken := 0
+		return mFunc(func() (int, error) {
+			for {
+				switch state {
+				case 0:
+					if !has {
+						v, err := in.next()
+						if err != nil {
+							return 0, err
+						}
+						has, held = true, v
+					}
+					first = held
+					taken = 0
+					state = 1
+				case 1:
+					if taken >= n.m {
+						state = 2
+						continue
+					}
+					if !has {
+						v, err := in.next()
+						if err == errMEnd {
+							state = 3
+							return sepRun, nil
+						}
+						if err != nil {
+							return 0, err
+						}
+						has, held = true, v
+					}
+					if !coarseEq(n.n, first, held) {
+						state = 0
+						return sepRun, nil
+					}
+					has = false
+					taken++
+					return held, nil
+				case 2:
+					// marker first (the adaptor emits it when it stops reading the run), then the
+					// remainder of the run is skipped as part of advancing the outer sequence
+					state = 4
+					return sepRun, nil
+				case 4:
+					for {
+						if !has {
+							v, err := in.next()
+							if err == errMEnd {
+								state = 3
+								break
+							}
+							if err != nil {
+								return 0, err
+							}
+							has, held = true, v
+						}
+						if !coarseEq(n.n, first, held) {
+							state = 0
+							break
+						}
+						has = false
+					}
+				case 3:
+					return 0, errMEnd
+				}
+			}
 		})
 	case "flatmap":
 		in := kid(0)
